@@ -76,9 +76,10 @@ var propSpecs = []propSpec{
 			{dir: "mux", entry: "ZZC05Ver", quick: []int{6}, thorough: []int{10}},
 			{dir: "mux", entry: "ZZC05Pat", quick: []int{6}, thorough: []int{8}},
 			{dir: "mux", entry: "ZZC05Rule", quick: []int{33, 152}, thorough: []int{43, 163}},
+			{dir: "mux", entry: "ZZC07Wide", quick: []int{2}, thorough: []int{3}},
 		},
-		covers:  []string{"request", "group-request", "host-match", "version-match", "handle-registered", "handle-rejected", "rule-accepted", "rule-rejected", "rule-served"},
-		bounds:  "Router.ServeHTTP: path = every byte string <= 8 bytes (incl. \"\", \"*\", non-UTF-8), method = every byte string <= 4 bytes, on the 17 route-table histories of C01 (which include Remove/Clean/Prefix.Clean states); Group.ServeHTTP with Hosts, path-version, header-version and And matchers: Host <= 3 ASCII bytes, path <= 3 bytes, 5 methods, 6 Accept headers; Hosts.Match: Host <= 6 ASCII bytes on 9 domains after a Delete; path-version matcher: path <= 6 bytes; patterns: every byte string <= 6 bytes into CheckSyntax, URL, Router.URL (strict and not), Handle on an empty and on a populated router; regexp rules: every string of <= 3 symbols over {a ( ) | ? * \\ b} and of <= 5 symbols over {a ( ) | b} as the rule of /{id:rule} with and without a literal suffix - whatever Handle accepts must then serve every path of <= 2-3 bytes without a fault",
+		covers:  []string{"request", "group-request", "host-match", "version-match", "handle-registered", "handle-rejected", "rule-accepted", "rule-rejected", "rule-served", "after-a-wide-request"},
+		bounds:  "Router.ServeHTTP: path = every byte string <= 8 bytes (incl. \"\", \"*\", non-UTF-8), method = every byte string <= 4 bytes, on the 17 route-table histories of C01 (which include Remove/Clean/Prefix.Clean states); Group.ServeHTTP with Hosts, path-version, header-version and And matchers: Host <= 3 ASCII bytes, path <= 3 bytes, 5 methods, 6 Accept headers; Hosts.Match: Host <= 6 ASCII bytes on 9 domains after a Delete; path-version matcher: path <= 6 bytes; patterns: every byte string <= 6 bytes into CheckSyntax, URL, Router.URL (strict and not), Handle on an empty and on a populated router; regexp rules: every string of <= 3 symbols over {a ( ) | ? * \\ b} and of <= 5 symbols over {a ( ) | b} as the rule of /{id:rule} with and without a literal suffix - whatever Handle accepts must then serve every path of <= 2-3 bytes without a fault; a request capturing 30-32 parameters followed by one with a symbolic value",
 		boundsT: "paths <= 11, Group host <= 5 / path <= 4, Hosts host <= 9, patterns <= 8 bytes",
 		outside: "longer inputs (the math.MaxInt16 segment limit is not reachable); Host bytes >= 0x80 (strings.ToLower is modelled for ASCII only); arbitrary Accept headers (mime.ParseMediaType runs natively on 6 concrete headers); panics raised by user handlers or interceptors",
 		assume:  []string{"regexp.Compile on a symbolic expression is an uninterpreted, consistent function of its bytes that never panics"},
